@@ -134,6 +134,9 @@ public:
   inline sandbox_callback& operator=(sandbox_callback&& other)
   {
     if (this != &other) {
+      // end the registration currently owned (if any) before taking over
+      // other's
+      unregister();
       move_obj(std::forward<sandbox_callback>(other));
     }
     return *this;
